@@ -325,6 +325,6 @@ Definition ev_clock (x : state) (tr : transition) (x' : state) : bool := s_now x
 Definition event_vector (x : state) (tr : transition) (x' : state) : list bool :=
   [ ev_pre_release x tr x'; ev_setup x tr x'; ev_tool_frame x tr x'; ev_due x tr x'; ev_work x tr x';
     ev_machine_outage x tr x'; ev_machine_release x tr x'; ev_dispatch x tr x'; ev_transit x tr x';
-    ev_deliver x tr x'; ev_transport_release x tr x'; ev_stores x tr x'; ev_clock x tr x'; ev_transit_release x tr x'; transit_side_b tr x' ].
+    ev_deliver x tr x'; ev_transport_release x tr x'; ev_stores x tr x'; ev_clock x tr x'; ev_transit_release x tr x'; transit_side_b tr x'; transit_claim_b tr x' ].
 
 End Ev.
